@@ -16,7 +16,7 @@ ScanInterp (a CutInterp) adds:
 from .interp import (Interp, Ctx, Sym, Term, Lin, Obj, View, Cell, Arr, is_opaque, vkey, NoReturn, Infeasible,
                      Unsupported, ElemPlace, _Ref, _Break, _Continue, _StaticAlias, VarPlace)
 from .build import AnalysisBroken
-from .lib_c18 import (CutInterp, BufPlace, INF, lin, lsub, ladd, same, known_byte, may_be, _assigned_vars, first, after, pinned, lower_bound)
+from .lib_c18 import (CutInterp, BufPlace, INF, lin, lsub, ladd, same, known_byte, may_be, _assigned_vars, first, after, pinned, lower_bound, _has_side_effects)
 
 T = 'tokenize.c'
 
@@ -139,10 +139,12 @@ class ScanInterp(CutInterp):
         self.havoc_globals = list(cfg.pop('havoc_globals', ()))      # [(name, ctype)]
         self.inner_limit = cfg.pop('inner_limit', 2)
         self.stop_at_exit = cfg.pop('stop_at_exit', False)
+        self.accelerate = cfg.pop('accelerate', False)      # counting loops behind the cut are summarised (lib_c18) instead of followed
         models = dict(cfg.get('models', {}))
         for nm, h in (('strncmp', self._m_strncmp), ('memcmp', self._m_strncmp), ('strstr', self._m_strstr), ('strchr', self._m_strchr),
                       ('memchr', self._m_strchr), ('strpbrk', self._m_strpbrk), ('fread', self._m_fread), ('fputc', self._m_fputc),
-                      ('putc', self._m_fputc), ('fwrite', self._m_fwrite), ('fgetc', self._m_input), ('getc', self._m_input), ('ungetc', self._m_input)):
+                      ('putc', self._m_fputc), ('fwrite', self._m_fwrite), ('fgetc', self._m_input), ('getc', self._m_input), ('ungetc', self._m_input),
+                      ('fgets', self._m_fgets), ('read', self._m_read)):
             models.setdefault(nm, h)
         for nm, cls in CTYPE_FNS.items():
             models.setdefault(nm, self._m_ctype(cls))
@@ -351,6 +353,36 @@ class ScanInterp(CutInterp):
             raise Unsupported('fread with an element size other than 1 at %s:%d' % (self.unit.name, call.line))
         return n
 
+    def _m_read(self, it, ctx, call, args):
+        st = self._st()
+        arr = self._arr_of(args[1]) if len(args) > 1 else None
+        cnt = args[2] if len(args) > 2 else None
+        n = Sym(ctx.fresh('read.n'), 'long')
+        ctx.bounds[n.key()] = [-1, cnt if isinstance(cnt, int) else INF]
+        ctx.emit('input', 'read', args, call.line, n)
+        if arr is not None:
+            base = Sym(ctx.fresh('chunk'), 'char *')
+            st['chunk'][id(arr)] = (arr, base)
+            st['chunklen'][base.key()] = n
+        return n
+
+    def _m_fgets(self, it, ctx, call, args):
+        st = self._st()
+        arr = self._arr_of(args[0])
+        ctx.emit('input', 'fgets', args, call.line, None)
+        if arr is None:
+            return self._opaque_call(call, args)
+        i = ctx.choose(2, 'fgets reads a piece')
+        if i == 1:
+            ctx.note('fgets: end of input')
+            return 0
+        base = Sym(ctx.fresh('chunk'), 'char *')
+        st['chunk'][id(arr)] = (arr, base)
+        st['chunklen'][base.key()] = None
+        st.setdefault('nulterm', set()).add(base.key())
+        ctx.note('fgets: a piece')
+        return args[0]
+
     def _m_input(self, it, ctx, call, args):
         r = Sym(ctx.fresh(call.callee()), 'int')
         ctx.emit('input', call.callee(), args, call.line, r)
@@ -413,7 +445,25 @@ class ScanInterp(CutInterp):
             return self._cut_loop(s, cond, inc, body, env, do=False)
         if not st['cut_done']:
             return Interp.exec_loop(self, s, _unused, cond, inc, body, env)
+        if self.accelerate and cond is not None and not _has_side_effects(cond):
+            return self._accel_stream_loop(s, cond, inc, body, env)
         return self._bounded_loop(s, cond, inc, body, env, do=False)
+
+    def _accel_stream_loop(self, s, cond, inc, body, env):
+        st = self._st()
+        pre = dict(st['pos'])
+        nev = len(self.ctx.events)
+        CutInterp._accel_loop(self, s, cond, inc, body, env)
+        done = [e for e in self.ctx.events[nev:] if e[0] == 'loop_done']
+        if done and not isinstance(done[-1][2], int):
+            trips = lin(done[-1][2])
+            for k, (stream, pos) in list(st['pos'].items()):
+                p0 = pre.get(k, (stream, 0))[1]
+                d = lsub(pos, p0)
+                if isinstance(d, int) and d and trips is not None:
+                    st['pos'][k] = (stream, ladd(p0, trips.scale(d)))
+                elif not isinstance(d, int):
+                    raise Unsupported('stream position does not advance by a constant per iteration at %s:%d' % (self.unit.name, s.line))
 
     def exec_do(self, s, env):
         st = self._st()
@@ -900,3 +950,178 @@ def _uncast_lin(v):
     for k, (c, leaf) in l.terms.items():
         tot = ladd(tot, lin(_uncast(leaf)).scale(c))
     return tot
+
+
+# --------------------------------------------------------------------------------------------- R18.2: where CR is canonicalised
+def explore_tolerant(it, fname, make_args, max_paths=4000):
+    """Interp.explore, but a path that meets a construct the engine cannot interpret BEFORE it reaches the cut loop, or after it has left
+    the function's part of interest without reaching it, is dropped (it says nothing about the loop); behind the cut the error is raised."""
+    from .interp import NeedChoice
+    u = it.unit
+    fn = u.functions.get(fname)
+    if fn is None:
+        raise AnalysisBroken('function %s not found in %s' % (fname, u.name))
+    out, stack, dropped = [], [[]], 0
+    while stack:
+        dec = stack.pop()
+        ctx = Ctx(dec)
+        it.ctx = ctx
+        try:
+            args = make_args(ctx)
+            v = it.call_fn(u, fn, args)
+            out.append((ctx, ('ret', v)))
+        except NeedChoice as e:
+            for a in range(e.n - 1, -1, -1):
+                stack.append(dec + [a])
+        except Infeasible:
+            pass
+        except NoReturn as e:
+            out.append((ctx, ('noreturn', e.fn, e.args_, e.line)))
+        except Unsupported:
+            if first(ctx, 'loop_head') is not None:
+                raise
+            dropped += 1
+        if len(out) + len(stack) > max_paths:
+            raise AnalysisBroken('path explosion in %s (> %d)' % (fname, max_paths))
+    return out
+
+
+def _is_const(n, c):
+    try:
+        return n.strip_all().int_value() == c
+    except Exception:
+        return False
+
+
+def cr_sites(u):
+    """[(function, loop node)]: the loops, in functions tokenize_file() reaches before it tokenises, in which a byte is compared with CR
+    (directly, as a case label, or in a function the loop calls). -> (sites, functions searched)"""
+    calls = callgraph(u)
+    reach = closure(calls, ['tokenize_file'], stop=['tokenize'])
+    direct = {}
+    for f in sorted(reach):
+        fd = u.functions[f]
+        for n in fd.walk():
+            hit = False
+            if n.kind == 'BinaryOperator' and n.opcode in ('==', '!=') and (_is_const(n.inner[0], 13) or _is_const(n.inner[1], 13)):
+                hit = True
+            elif n.kind == 'CaseStmt' and n.inner and _is_const(n.inner[0], 13):
+                hit = True
+            if hit:
+                direct.setdefault(f, []).append(n)
+    sites = []
+    seen = set()
+    for f, ns in direct.items():
+        for n in ns:
+            lps = [a for a in n.ancestors() if a.kind in LOOPS]
+            if lps:
+                if lps[0].id not in seen:
+                    seen.add(lps[0].id)
+                    sites.append((f, lps[0]))
+            else:
+                # the comparison lives in a helper: the loops that call it
+                for g in sorted(reach):
+                    for c in u.functions[g].walk():
+                        if c.kind == 'CallExpr' and c.callee() and f in closure(calls, [c.callee()]):
+                            lp = [a for a in c.ancestors() if a.kind in LOOPS]
+                            if lp and lp[0].id not in seen:
+                                seen.add(lp[0].id)
+                                sites.append((g, lp[0]))
+    return sites, sorted(reach)
+
+
+def mentions_cr_text(u, fns):
+    for f in fns:
+        for n in u.functions[f].walk():
+            if n.kind == 'StringLiteral':
+                try:
+                    if '\r' in (n.str_value() or ''):
+                        return True
+                except Exception:
+                    return True
+    return False
+
+
+PURE_EXTERN = ('strchr', 'memchr', 'strstr', 'strlen', 'strncmp', 'strcmp', 'memcmp', '__ctype_b_loc', 'ferror', 'feof') + tuple(CTYPE_FNS)
+
+
+def carried_state(u, loop, exclude=()):
+    """names of the variables that can carry information from one chunk of input to the next: assigned inside the outermost loop around
+    `loop` (that loop included) and declared outside it, other than `exclude` and the results of the input calls themselves"""
+    outer = loop
+    for a in loop.ancestors():
+        if a.kind in LOOPS:
+            outer = a
+    declared_inside = set(n.id for n in outer.walk() if n.kind == 'VarDecl' and n.d.get('storageClass') != 'static')
+    out = set()
+    for n in outer.walk():
+        tgt = rhs = None
+        if n.kind == 'UnaryOperator' and n.opcode in ('++', '--'):
+            tgt = n.inner[0]
+        elif n.kind == 'BinaryOperator' and n.opcode == '=':
+            tgt, rhs = n.inner[0], n.inner[1]
+        elif n.kind == 'CompoundAssignOperator':
+            tgt = n.inner[0]
+        if tgt is None:
+            continue
+        t = tgt.strip()
+        while t.kind in ('MemberExpr', 'ArraySubscriptExpr') and t.inner:
+            t = t.inner[0].strip()
+        if t.kind == 'UnaryOperator' and t.opcode == '*' and t.inner:
+            t = t.inner[0].strip()
+        if t.kind != 'DeclRefExpr':
+            out.add('?')
+            continue
+        if t.ref_id in declared_inside or t.ref_name in exclude:
+            continue
+        if rhs is not None and rhs.strip_all().kind == 'CallExpr' and rhs.strip_all().callee() in STREAM_IN:
+            continue
+        out.add(t.ref_name)
+    # a function the loop calls may keep state of its own
+    calls = callgraph(u)
+    for c in outer.walk():
+        if c.kind != 'CallExpr':
+            continue
+        nm = c.callee()
+        if nm is None:
+            out.add('(indirect call)')
+        elif nm in u.functions:
+            cl = closure(calls, [nm])
+            if assigned_globals(u, cl) or any(n.kind == 'VarDecl' and n.d.get('storageClass') == 'static' for f in cl for n in u.functions[f].walk()):
+                out.add(nm + '()')
+        elif nm not in STREAM_IN and nm not in ('fputc', 'putc', 'fwrite', 'fclose', 'fflush') and nm not in PURE_EXTERN:
+            out.add(nm + '()')
+    return out, outer
+
+
+def splice_sites(u):
+    """[(function, loop node)]: the loops, in functions tokenize_file() reaches before it tokenises, that compare a byte with a backslash and a
+    byte with a newline (the line-splice filter, whatever it is called and wherever it lives)"""
+    calls = callgraph(u)
+    reach = closure(calls, ['tokenize_file'], stop=['tokenize'])
+    sites = []
+    for f in sorted(reach):
+        for lp in loops_of(u.functions[f]):
+            has = set()
+            for n in lp.walk():
+                if n.kind == 'BinaryOperator' and n.opcode in ('==', '!='):
+                    for c in (92, 10):
+                        if _is_const(n.inner[0], c) or _is_const(n.inner[1], c):
+                            has.add(c)
+                elif n.kind == 'CaseStmt' and n.inner:
+                    for c in (92, 10):
+                        if _is_const(n.inner[0], c):
+                            has.add(c)
+            if has == {92, 10} and not any(x.kind in LOOPS and x is not lp and _has_both(x) for x in lp.walk()):
+                sites.append((f, lp))
+    return sites
+
+
+def _has_both(lp):
+    has = set()
+    for n in lp.walk():
+        if n.kind == 'BinaryOperator' and n.opcode in ('==', '!='):
+            for c in (92, 10):
+                if _is_const(n.inner[0], c) or _is_const(n.inner[1], c):
+                    has.add(c)
+    return has == {92, 10}
